@@ -68,6 +68,15 @@ def gen_cases(rng, stats, count):
                     histgen.edit("ExtendedDaemonSet", NS, EDS, "image:img:%d" % rng.choice([4, 5])),
                     histgen.rec_eds(), K.sleep(2), histgen.rec_eds(), histgen.rec_all_ers(rng)]
             wprop.bump(stats, "template changed while frozen/paused", key.rsplit("/", 1)[-1])
+        if (can is None or can.get("validationMode") == "auto") and rng.random() < 0.4:
+            # several pods of the running template start crash-looping (and stay so); then the template is changed: the
+            # unready old pods are replaced ahead of the available ones, whatever their number
+            stride = rng.choice([1, 1, 2])
+            e["spec"]["strategy"]["rollingUpdate"]["maxUnavailable"] = rng.choice([1, 1, 2])   # the default is 1
+            ops += histgen.fair_round(rng, sleep=61)
+            ops += [histgen.kubelet("crashloop", stride), histgen.rec_all_ers(rng),
+                    histgen.edit("ExtendedDaemonSet", NS, EDS, "image:img:%d" % rng.choice([6, 7])), histgen.rec_eds()]
+            wprop.bump(stats, "old pods crash-looping when the template changes", "every %d" % stride)
         add_tail(rng, c, n + 2)
         out.append(c)
     return out
